@@ -86,6 +86,19 @@ Proof.
   rewrite E. destruct (mult_next_x out inn st) as [r st']. cbn [snd] in K. rewrite (IH st' K). reflexivity.
 Qed.
 
+Lemma run_check_x_eq out inn : rate_ok out -> rate_ok inn -> forall n j st dflt len expected, st_ok st ->
+  run_check (mult_next out inn) n j st dflt len expected = run_check (mult_next_x out inn) n j st dflt len expected.
+Proof.
+  intros Ho Hi. induction n as [|n IH]; intros j st dflt len expected Hs; [reflexivity|].
+  cbn [run_check]. destruct (mult_next_x_eq out inn st Ho Hi Hs) as [E K]. rewrite E.
+  destruct (mult_next_x out inn st) as [r st']. cbn [snd] in K.
+  destruct (match expected with
+            | [] => (dflt, [])
+            | (i, v) :: rest => if i =? j then (v, rest) else (dflt, expected)
+            end) as [want rest].
+  rewrite (IH (j + 1) st' dflt len rest K). reflexivity.
+Qed.
+
 (** ** Closed form: after n timeline ticks the device has received ceil(n*a/b) ticks *)
 Definition owed (a b n : Z) : Z := (n * a + b - 1) / b.          (* = ceil(n*a/b) for n >= 0 *)
 
